@@ -25,12 +25,12 @@ def bases(crt, key):
         ],
         "connectors": [
             {"name": "direct", "dns": {"servers": "system", "family": "V4Only"}},
-            {"name": "http", "server": "192.168.100.1", "port": 7081},
-            {"name": "https", "type": "http", "server": "192.168.100.1", "port": 3333, "tls": {"insecure": True}},
-            {"name": "socks", "server": "192.168.100.1", "port": 1080},
-            {"name": "socks4", "type": "socks", "server": "192.168.100.1", "port": 1080, "version": 4},
-            {"name": "socks-tls", "type": "socks", "server": "192.168.100.1", "port": 9123, "auth": {"username": "proxy", "password": "pw"}, "tls": {"insecure": True}},
-            {"name": "quic", "server": "192.168.100.1", "port": 7081, "inline_udp": False, "tls": {"insecure": True}},
+            {"name": "http", "server": "127.0.0.1", "port": 7081},
+            {"name": "https", "type": "http", "server": "127.0.0.1", "port": 3333, "tls": {"insecure": True}},
+            {"name": "socks", "server": "127.0.0.1", "port": 1080},
+            {"name": "socks4", "type": "socks", "server": "127.0.0.1", "port": 1080, "version": 4},
+            {"name": "socks-tls", "type": "socks", "server": "127.0.0.1", "port": 9123, "auth": {"username": "proxy", "password": "pw"}, "tls": {"insecure": True}},
+            {"name": "quic", "server": "127.0.0.1", "port": 7081, "inline_udp": False, "tls": {"insecure": True}},
             {"name": "lb", "type": "loadbalance", "connectors": ["direct", "http"], "algo": {"hashBy": "request.source.host"}},
             {"name": "lb2", "type": "loadbalance", "connectors": ["lb", "socks"]},
         ],
